@@ -169,9 +169,17 @@ def run_harness(fam, seed, n, tier, outpath, replay=None, timeout=3600, extra=No
     if extra:
         cmd += extra
     env = dict(os.environ, GOMEMLIMIT="6GiB")
-    with open(outpath, "w") as f:
-        p = subprocess.run(cmd, stdout=f, stderr=subprocess.PIPE, text=True, timeout=timeout, env=env)
-    return p.returncode, p.stderr[-3000:]
+    errpath = outpath + ".stderr"
+    with open(outpath, "w") as f, open(errpath, "w") as fe:
+        p = subprocess.run(cmd, stdout=f, stderr=fe, text=True, timeout=timeout, env=env)
+    tail = ""
+    try:
+        with open(errpath, "rb") as fe:
+            fe.seek(max(0, os.path.getsize(errpath) - 3000))
+            tail = fe.read().decode("utf-8", "replace")
+    except OSError:
+        pass
+    return p.returncode, tail
 
 
 def run_driver(inpath, outpath, timeout=3600, shards=1):
@@ -422,23 +430,43 @@ def main():
         if not lb["driver_ok"]:
             broken.append("driver does not build: " + lb["log"][-800:])
 
-    if cfg.get("confirm_rerun"):
-        # timing-dependent families: a disagreeing record is re-run alone once before it is believed
+    if cfg.get("confirm_rerun") and an.ne:
+        # timed scripts: believe a disagreement only if it shows again when the record is re-run alone
         kept = []
         for t in an.ne:
-            if kept:  # one confirmed disagreement is enough; the rest is kept unverified
-                kept.append(t)
-                continue
-            r = eval_session(cfg, fam, t[0], f"{pid}/confirm")
-            if any(a.startswith("NE") for (_, _, a) in r):
-                kept.append(t)
-            else:
-                notes.append(f"not reproduced when re-run alone (model/implementation): {t[1][:160]} -> {t[3][:120]}")
+            if len(kept) < 3:
+                r = eval_session(cfg, fam, t[0], f"{pid}/confirm")
+                if not any(a.startswith("NE") for (_, _, a) in r):
+                    notes.append("not reproduced when re-run alone: " + t[1][:200] + " -> " + t[3][:120])
+                    continue
+            kept.append(t)
         an.ne = kept
     for (s, inp, impl, ans) in an.err[:3]:
         hard_fail.append(f"driver rejected record: {inp[:200]} -> {ans}")
     if an.ne:
         broken.append(f"correspondence: model and implementation differ on {len(an.ne)} of {an.n} records, first: {an.ne[0][1][:200]}")
+
+    if cfg.get("confirm_rerun") and an.h0:
+        # timed scripts: believe a failure only if it shows again when the record is re-run alone
+        # (first record of each clause class; at most two attempts per class)
+        confirmed, state = [], {}
+        for t in an.h0:
+            clause = t[3][3:] if t[3].startswith("H0:") else t[3]
+            key = (clause.split("@")[0], t[1].split(" ")[0])
+            st = state.get(key, 0)
+            if st == "ok":
+                confirmed.append(t)
+                continue
+            if st >= 2:
+                continue
+            r = eval_session(cfg, fam, t[0], f"{pid}/confirm")
+            if any(" H0" in a for (_, _, a) in r):
+                state[key] = "ok"
+                confirmed.append(t)
+            else:
+                state[key] = st + 1
+                notes.append("not reproduced when re-run alone: " + t[1][:200] + " -> " + t[3][:120])
+        an.h0 = confirmed
 
     known = load_known()
     violations = []
@@ -448,11 +476,6 @@ def main():
     for (sess, inp, impl, h) in an.h0:
         clause = h[3:] if h.startswith("H0:") else h
         key = (clause.split("@")[0], inp.split(" ")[0])
-        if cfg.get("confirm_rerun") and seen_classes.get(key, 0) == 0:
-            r = eval_session(cfg, fam, sess, f"{pid}/confirm")
-            if not any(" H0" in a for (_, _, a) in r):
-                notes.append(f"not reproduced when re-run alone: {inp[:160]} {h}")
-                continue
         if seen_classes.get(key, 0) >= 1:
             seen_classes[key] += 1
             continue
